@@ -58,9 +58,9 @@ def sessions(suite, spec, scratch, tag):
     return sorted(glob.glob(os.path.join(outdir, "*.ndjson"))), info
 
 
-def trace(suite, shards, scratch, log):
+def trace(suite, shards, scratch, log, props=("C02",)):
     consts = dict(suite["tla"])
-    consts.update({"Fixes": tlc.tla_set(cf.ALL_FIXES), "Check": tlc.tla_set(["C02", "REF"])})
+    consts.update({"Fixes": tlc.tla_set(cf.ALL_FIXES), "Check": tlc.tla_set(sorted(props) + ["REF"])})
     cfgp = os.path.join(scratch, f"trace_{suite['cfg']['name']}.cfg")
     open(cfgp, "w").write(tlc.cfg_text(constants=consts, invariants=["Inv"], post="Post"))
 
@@ -78,8 +78,10 @@ def trace(suite, shards, scratch, log):
     with ThreadPoolExecutor(max_workers=cf.NCPU) as ex:
         for sh, out in ex.map(one, shards):
             for t in tlc.tuples(out, "FAIL"):
-                nums = [int(x) for x in re.findall(r"-?\d+", t.split('"C02"')[1])]
-                res["fails"].append((sh, nums[0], nums[1]))
+                name = t.split('"')[3]
+                nums = [int(x) for x in re.findall(r"-?\d+", t.split(f'"{name}"')[1])]
+                if name in props:
+                    res["fails"].append((sh, nums[0], nums[1]))
             for t in tlc.tuples(out, "DRIFT"):
                 nums = [int(x) for x in re.findall(r"-?\d+", t)]
                 res["drift"].append((sh, nums[0], nums[1]))
@@ -87,6 +89,27 @@ def trace(suite, shards, scratch, log):
                 nums = [int(x) for x in re.findall(r"-?\d+", t)]
                 res["sessions"] += nums[0]; res["steps"] += nums[1]; res["undoredo"] += nums[2]
     return res
+
+
+def session_phase(prop, tier, seed, scratch, log, suites=("struct4", "struct3")):
+    """Seeded random sessions (edits, undo, redo) with the state invariant of `prop` evaluated by TLC
+    after every call. Returns (violations, info)."""
+    nrand = 250 if tier == "quick" else 4000
+    viols, infos = [], []
+    for k, sname in enumerate(suites):
+        suite = cf.SUITES[sname]
+        spec = {"mode": "random", "count": nrand, "length": 40, "seed": seed + 17 * k, "kinds": suite["kinds"],
+                "p_undo": 0.28, "p_redo": 0.2}
+        shards, info = sessions(suite, spec, scratch, f"inv_{sname}")
+        res = trace(suite, shards, scratch, log, props=(prop,))
+        if res["sessions"] != info["sessions"]:
+            raise MachineryError(f"TLC saw {res['sessions']} sessions, harness wrote {info['sessions']}")
+        info.update({"suite": sname, "fails": len(res["fails"]), "drift": len(res["drift"]), "steps": res["steps"]})
+        infos.append(info)
+        for sh, idx, step in res["fails"]:
+            rec = cf.get_record(sh, idx)
+            viols.append({"suite": sname, "step": step, "calls": [s["c"] for s in rec["steps"]][:step], "session": rec})
+    return viols, infos
 
 
 def run(prop, tier, seed, replay_path=None):
